@@ -1,4 +1,60 @@
-import Blf.FileSeq
-/-! # C09 (theorems under construction; the executable model `Blf.FileSeq` is tied to the code by the `file` protocol) -/
+import Blf.FillerRound
+/-!
+# C09 — Unknown object types and filler bytes are skipped without losing neighbours
+
+* `C09_search_finds_first_signature`: for every byte string, the signature search of `ObjectHeaderBase::read` stops exactly behind
+  the first signature at or after the start position (no signature is skipped, none is invented);
+* `C09_stream_with_filler_and_unknown_objects`: the object parser on any stream of segments — arbitrary filler without a
+  signature (partial prefixes `L`, `LO`, `LOB` directly before an object included), then either an object of a type without
+  codec (any code the factory does not know, declared size 16 … 2^32-1) or a known parsable object — delivers exactly the
+  known objects, unmodified and in order.
+
+Not covered by the theorems: filler *behind the last object* (the search then runs into the end of the stream; covered by
+`C10_read_session_ends_without_ub` and dynamically), objects of the classes outside the exactly-framed fragment.
+-/
 namespace Blf.Props
+open Blf Blf.FileSeq Blf.FileRound Blf.FillerRound
+
+theorem C09_search_finds_first_signature (cfg : Cfg) (hs : cfg.sticky = false) (f k : Nat) (st : St)
+    (hle : st.pos ≤ k) (hlen : k + 4 ≤ st.inp.length) (hsig : startsSig (st.inp.drop k) = true)
+    (hnone : ∀ j, st.pos ≤ j → j < k → startsSig (st.inp.drop j) = false) :
+    (Stmt.sync f).exec cfg st = { st with obj := st.obj.setNum f SIG, pos := k + 4, good := true, eof := false } :=
+  exec_sync_skips_filler cfg hs f k st hle hlen hsig hnone
+
+theorem C09_stream_with_filler_and_unknown_objects (cap : Nat) (S : List Seg) (hS : ∀ s ∈ S, s.OK cap) :
+    ∃ ds, (objectLoop cap (4 * (flatS cap S).length + 64) { st := { obj := statsDefault, inp := flatS cap S } }).objs = ds.reverse ∧
+      AllDelivered (known S) ds ∧
+      (objectLoop cap (4 * (flatS cap S).length + 64) { st := { obj := statsDefault, inp := flatS cap S } }).outcome = none := by
+  have hfuel : ∀ (T : List Seg), (∀ s ∈ T, s.OK cap) → T.length ≤ (flatS cap T).length := by
+    intro T
+    induction T with
+    | nil => intro _; simp
+    | cons s l ih =>
+      intro hT
+      have h2 := ih (fun y hy => hT y (by simp [hy]))
+      have : 1 ≤ (s.bytes cap).length := by
+        have hs := hT s (by simp)
+        cases s with
+        | obj fill x =>
+          have := enc_length cap x.1 x.2.1 x.2.2 hs.1
+          simp only [Seg.bytes, List.length_append]; omega
+        | unk fill a b osz code body => simp [Seg.bytes, hdrBytes]; omega
+      simp only [flatS, List.length_append, List.length_cons]; omega
+  have hfuel := hfuel S hS
+  obtain ⟨ds, d1, d2, d3⟩ := parse_segments cap S hS (flatS cap S)
+    { st := { obj := statsDefault, inp := flatS cap S } } (4 * (flatS cap S).length + 64)
+    ⟨⟨rfl, rfl, Nat.zero_le _, rfl⟩, rfl, rfl⟩ (by simp) (by omega)
+  exact ⟨ds, by rw [d1]; simp, d2, d3⟩
+
+/-- non-vacuity: the partial signature prefix `LOB` in front of an object is admissible filler -/
+example (rest : Bytes) : NoSig [0x4C, 0x4F, 0x42] (leBytes 4 SIG ++ rest) := by
+  intro j hj
+  simp only [List.length_cons, List.length_nil] at hj
+  have hS : leBytes 4 SIG = [0x4C, 0x4F, 0x42, 0x4A] := by decide
+  rw [hS]
+  match j, hj with
+  | 0, _ => simp [startsSig, sigBytes]
+  | 1, _ => simp [startsSig, sigBytes]
+  | 2, _ => simp [startsSig, sigBytes]
+
 end Blf.Props
